@@ -121,7 +121,7 @@ func (h *harness) checkLateClone(cs Case, verbose bool) *failure {
 	if f != nil && f.kind == "property" {
 		// confirm on fresh definitions (rules out run-to-run nondeterminism)
 		f2 := h.playLateClone(cs.Hist, fam, cs.Seed, false)
-		if f2 == nil || f2.what != f.what {
+		if f2 == nil || f2.what != f.what || h.pipelineNondeterministic(cs.Hist, fam) {
 			h.run.Count("op:nondeterministic-pipeline (skipped)")
 			return nil
 		}
